@@ -69,12 +69,13 @@ impl Datagrams<'_> {
         let max_size = self.conn.path.current_mtu() as usize
             - self.conn.predict_1rtt_overhead(None)
             - Datagram::SIZE_BOUND;
-        let limit = self
-            .conn
-            .peer_params
-            .max_datagram_frame_size?
-            .into_inner()
-            .saturating_sub(Datagram::SIZE_BOUND as u64);
+        let limit = self.conn.peer_params.max_datagram_frame_size?.into_inner();
+        if limit < 2 {
+            // Not even an empty datagram fits into a frame with a length field, and zero means that
+            // the peer does not support datagrams at all
+            return None;
+        }
+        let limit = limit.saturating_sub(Datagram::SIZE_BOUND as u64);
         Some(limit.min(max_size as u64) as usize)
     }
 
